@@ -102,10 +102,20 @@ type Op struct {
 	// Match: "" = plain, "t" / "f" = the registration goes through Match(pred) with a predicate
 	// that is true / false for this database (how gorm registers its own transaction callbacks)
 	Match string `json:"match,omitempty"`
+	// Inside: the call is made from inside the running pipeline, by the callback of this (live)
+	// name when it fires - a callback that registers, replaces or unregisters (itself or another)
+	Inside string `json:"inside,omitempty"`
 }
 
 func (o Op) String() string {
+	if o.Inside != "" {
+		in := o.Inside
+		o.Inside = ""
+		return "[while " + in + " runs: " + o.String() + "]"
+	}
 	switch o.Kind {
+	case "reopen":
+		return "gorm.Open(dialector, db.Config)"
 	case "register":
 		s := o.matchString()
 		if o.Before != "" {
@@ -168,6 +178,8 @@ type stepResult struct {
 	firedErr []fired // fired list of the run whose statement carried an error from the start
 	// fired lists of further runs: dry-run statement, statement with a model, SkipHooks session
 	firedOther [][]fired
+	// during: fired list of the run in which the step's call was made (Op.Inside), nil otherwise
+	during []fired
 }
 
 type execModel struct {
@@ -183,8 +195,17 @@ func apply(c Case) []stepResult {
 		panic(err)
 	}
 	var log []fired
+	var pendingAt string
+	var pending func()
 	stub := func(name string, version int) func(*gorm.DB) {
-		return func(*gorm.DB) { log = append(log, fired{name, version}) }
+		return func(*gorm.DB) {
+			log = append(log, fired{name, version})
+			if pending != nil && pendingAt == name {
+				f := pending
+				pending = nil
+				f()
+			}
+		}
 	}
 	rdb := db
 	switch c.Via {
@@ -216,41 +237,72 @@ func apply(c Case) []stepResult {
 	out := make([]stepResult, 0, len(c.Ops))
 	for _, o := range c.Ops {
 		var e error
-		switch o.Kind {
-		case "register":
-			versions[o.Name]++
-			h := stub(o.Name, versions[o.Name])
-			switch {
-			case o.Before == "" && o.After == "" && o.Match == "":
-				e = proc.Register(o.Name, h)
-			default:
-				cb := pv // the builder: Match(..) first, like gorm's own registrations, then Before/After
-				if o.Match != "" {
+		var during []fired
+		doOp := func() {
+			switch o.Kind {
+			case "reopen":
+				// a second handle opened with the first one's Config: it gets pipelines of its own, the
+				// callbacks its dialector registers (here: stub built-ins, handler generation 1000) must not
+				// show up in the first handle's pipelines
+				db2, err := gorm.Open(nopDialector{}, db.Config)
+				if err != nil {
+					e = err
+					return
+				}
+				p2 := pipeline(db2, c.Pipeline).(processor)
+				for _, b := range builtins[c.Pipeline] {
+					if err := p2.Register(b, stub(b, 1000)); err != nil {
+						e = err
+						return
+					}
+				}
+			case "register":
+				versions[o.Name]++
+				h := stub(o.Name, versions[o.Name])
+				switch {
+				case o.Before == "" && o.After == "" && o.Match == "":
+					e = proc.Register(o.Name, h)
+				default:
+					cb := pv // the builder: Match(..) first, like gorm's own registrations, then Before/After
+					if o.Match != "" {
+						want := o.Match == "t"
+						cb = cb.MethodByName("Match").Call([]reflect.Value{reflect.ValueOf(func(*gorm.DB) bool { return want })})[0]
+					}
+					if o.Before != "" {
+						cb = cb.MethodByName("Before").Call([]reflect.Value{reflect.ValueOf(o.Before)})[0]
+					}
+					if o.After != "" {
+						cb = cb.MethodByName("After").Call([]reflect.Value{reflect.ValueOf(o.After)})[0]
+					}
+					e = callRegister(cb, o.Name, h)
+				}
+			case "replace":
+				versions[o.Name]++
+				if o.Match == "" {
+					e = proc.Replace(o.Name, stub(o.Name, versions[o.Name]))
+				} else {
 					want := o.Match == "t"
-					cb = cb.MethodByName("Match").Call([]reflect.Value{reflect.ValueOf(func(*gorm.DB) bool { return want })})[0]
+					cb := pv.MethodByName("Match").Call([]reflect.Value{reflect.ValueOf(func(*gorm.DB) bool { return want })})[0]
+					r := cb.MethodByName("Replace").Call([]reflect.Value{reflect.ValueOf(o.Name), reflect.ValueOf(stub(o.Name, versions[o.Name]))})[0]
+					if !r.IsNil() {
+						e = r.Interface().(error)
+					}
 				}
-				if o.Before != "" {
-					cb = cb.MethodByName("Before").Call([]reflect.Value{reflect.ValueOf(o.Before)})[0]
-				}
-				if o.After != "" {
-					cb = cb.MethodByName("After").Call([]reflect.Value{reflect.ValueOf(o.After)})[0]
-				}
-				e = callRegister(cb, o.Name, h)
+			case "remove":
+				e = proc.Remove(o.Name)
 			}
-		case "replace":
-			versions[o.Name]++
-			if o.Match == "" {
-				e = proc.Replace(o.Name, stub(o.Name, versions[o.Name]))
-			} else {
-				want := o.Match == "t"
-				cb := pv.MethodByName("Match").Call([]reflect.Value{reflect.ValueOf(func(*gorm.DB) bool { return want })})[0]
-				r := cb.MethodByName("Replace").Call([]reflect.Value{reflect.ValueOf(o.Name), reflect.ValueOf(stub(o.Name, versions[o.Name]))})[0]
-				if !r.IsNil() {
-					e = r.Interface().(error)
-				}
+		}
+		if o.Inside != "" {
+			pendingAt, pending = o.Inside, doOp
+			log = nil
+			exec.Execute(db.Session(&gorm.Session{NewDB: true}).Table("t"))
+			during = append([]fired{}, log...)
+			if pending != nil { // the callback did not fire: the harness chose a name that is not live
+				pending = nil
+				panic("harness: Inside names a callback that did not fire: " + o.Inside)
 			}
-		case "remove":
-			e = proc.Remove(o.Name)
+		} else {
+			doOp()
 		}
 		if e != nil {
 			out = append(out, stepResult{err: e})
@@ -258,7 +310,7 @@ func apply(c Case) []stepResult {
 		}
 		log = nil
 		exec.Execute(db.Session(&gorm.Session{NewDB: true}).Table("t"))
-		sr := stepResult{fired: append([]fired(nil), log...)}
+		sr := stepResult{fired: append([]fired(nil), log...), during: during}
 		// the same pipeline run for a statement that already carries an error when it starts (a
 		// Scopes function or the caller called AddError): gorm's built-ins look at db.Error one by
 		// one, the processor itself runs every callback (error handlers and tracers rely on it)
@@ -324,6 +376,8 @@ func (m *model) step(o Op) {
 		return
 	}
 	switch o.Kind {
+	case "reopen":
+		return
 	case "register":
 		m.gen[o.Name]++
 		if r, live := m.live[o.Name]; live {
@@ -482,6 +536,55 @@ func (m *model) acyclic(withStar bool) bool {
 	return true
 }
 
+func builtinFired(pipeline string) []fired {
+	var f []fired
+	for _, b := range builtins[pipeline] {
+		f = append(f, fired{b, 0})
+	}
+	return f
+}
+
+// checkDuring judges the pipeline run during which a registration call was made. Whether that run
+// already sees the change is not stated, so only what both readings share is required: nothing fires
+// twice, nothing fires that is registered neither before nor after the call, and every callback the call
+// does not touch fires exactly once, in the relative order of the run before or of the run after.
+func checkDuring(old map[string]int, m *model, prev, next, during []fired) string {
+	seen := map[string]int{}
+	for _, x := range during {
+		seen[x.name]++
+		if seen[x.name] > 1 {
+			return fmt.Sprintf("callback %q fired twice", x.name)
+		}
+		_, wasLive := old[x.name]
+		_, isLive := m.live[x.name]
+		if !wasLive && !isLive {
+			return fmt.Sprintf("callback %q fired but is registered neither before nor after the call", x.name)
+		}
+	}
+	untouched := map[string]bool{}
+	for n, v := range old {
+		if r, ok := m.live[n]; ok && r.version == v {
+			untouched[n] = true
+			if seen[n] != 1 {
+				return fmt.Sprintf("callback %q, which the call does not touch, did not fire", n)
+			}
+		}
+	}
+	order := func(f []fired) string {
+		var o []string
+		for _, x := range f {
+			if untouched[x.name] {
+				o = append(o, x.name)
+			}
+		}
+		return strings.Join(o, ",")
+	}
+	if d := order(during); d != order(prev) && d != order(next) {
+		return fmt.Sprintf("the untouched callbacks fired in the order %s, before the call they fire as %s, after it as %s", d, order(prev), order(next))
+	}
+	return ""
+}
+
 func names(f []fired) string {
 	s := make([]string, len(f))
 	for i, x := range f {
@@ -498,7 +601,20 @@ func checkCase(c Case) string {
 		if r.err != nil {
 			return "" // an error is a valid outcome; the history ends here
 		}
+		old := map[string]int{}
+		for n, x := range m.live {
+			old[n] = x.version
+		}
+		prev := builtinFired(c.Pipeline)
+		if i > 0 {
+			prev = res[i-1].fired
+		}
 		m.step(c.Ops[i])
+		if r.during != nil {
+			if msg := checkDuring(old, m, prev, r.fired, r.during); msg != "" {
+				return fmt.Sprintf("step %d (%s), the run in which the call was made: %s; that run fired: %s", i+1, c.Ops[i], msg, names(r.during))
+			}
+		}
 		if err := m.check(r.fired); err != nil {
 			return fmt.Sprintf("after step %d (%s): %v; fired order: %s", i+1, c.Ops[i], err, names(r.fired))
 		}
@@ -582,6 +698,9 @@ func classes(c Case, errored bool) []string {
 		}
 		if o.Match != "" {
 			seen["op:match-"+o.Match] = true
+		}
+		if o.Inside != "" {
+			seen["op:called-inside-the-running-pipeline"] = true
 		}
 		seen["op:"+k] = true
 	}
@@ -853,7 +972,20 @@ func nextOps(m *model, nCustom int, reducedCombos bool) []Op {
 			break
 		}
 	}
-	ops = append(ops, Op{Kind: "remove", Name: unknown})
+	ops = append(ops, Op{Kind: "remove", Name: unknown}, Op{Kind: "reopen"})
+	// calls made from inside the running pipeline: a callback that unregisters itself, and one that
+	// registers another
+	for _, c := range customs {
+		if _, live := m.live[c]; live {
+			ops = append(ops, Op{Kind: "remove", Name: c, Inside: c})
+			break
+		}
+	}
+	if bs := builtins[m.pipeline]; len(regNames) > 0 {
+		if _, live := m.live[bs[0]]; live {
+			ops = append(ops, Op{Kind: "register", Name: regNames[0], Inside: bs[0]})
+		}
+	}
 	for _, n := range liveNames {
 		// registering a live name again (gorm warns "duplicated callback"): the name must still run once, latest handler
 		if r := m.live[n]; (r.before == "*" || r.after == "*") && harness.OpenClass("C17", "replace-star") {
@@ -981,12 +1113,32 @@ func TestC17Random(t *testing.T) {
 				sub = choices
 			}
 			o := rapid.SampledFrom(sub).Draw(rt, "op")
+			if o.Inside == "" && o.Kind != "reopen" && rapid.IntRange(0, 4).Draw(rt, "inside") == 0 {
+				if live := sortedLive(m); len(live) > 0 {
+					o.Inside = rapid.SampledFrom(live).Draw(rt, "insideOf")
+				}
+			}
 			ops = append(ops, o)
 			m.step(o)
 		}
 		via := rapid.SampledFrom([]string{"", "", "session", "newdb", "tx"}).Draw(rt, "via")
 		runCase(rt, Case{Pipeline: pl, Ops: ops, Via: via}, "TestC17Random")
 	})
+}
+
+func sortedLive(m *model) []string {
+	var out []string
+	for _, b := range builtins[m.pipeline] {
+		if _, ok := m.live[b]; ok {
+			out = append(out, b)
+		}
+	}
+	for _, c := range customs {
+		if _, ok := m.live[c]; ok {
+			out = append(out, c)
+		}
+	}
+	return out
 }
 
 // TestC17Guard compares the stub table with the callbacks the real default
